@@ -19,7 +19,7 @@ STATES = ["a", "b", "c"]
 EVENTS = ["go", "hop", "tick"]
 
 
-def chain_am(asyncs_all=False, with_listener=True, with_model=False):
+def chain_am(asyncs_all=False, with_listener=True, with_model=False, drop=()):
     am = {
         "states": [{"id": "a", "initial": True}, {"id": "b"}, {"id": "c"}],
         "transitions": [
@@ -40,6 +40,8 @@ def chain_am(asyncs_all=False, with_listener=True, with_model=False):
         am["methods"]["listener0"] = ["on_transition", "after_transition", "on_enter_a"]
     if with_model:
         am["methods"]["model"] = ["before_transition", "on_exit_state"]
+    for p in am["methods"]:
+        am["methods"][p] = [n for n in am["methods"][p] if n not in drop]
     am["async"] = [[p, n] for p, ns in am["methods"].items() for n in ns] if asyncs_all else []
     return am
 
@@ -75,8 +77,11 @@ def frame_check(ctx, sm, tag):
 def run_history(ctx, params, script_kw, prop, class_name):
     """params: engine, rtc, allow, s0 (0..2 state index, 3 = from construction), calls, events (ids)."""
     is_async = params["engine"] != "sync"
-    am = chain_am(asyncs_all=is_async, with_listener=params.get("listener", True), with_model=params.get("model", False))
+    am = chain_am(asyncs_all=is_async, with_listener=params.get("listener", True), with_model=params.get("model", False),
+                  drop=params.get("drop", ()))
     r, script, model, listeners = build(ctx, am, params, script_kw, class_name)
+    if params.get("where_top_only"):
+        script.where = lambda provider, name, info: script._cur_trigger is script._first_trigger
     rtc, allow = params["rtc"], params["allow"]
     kw = {"rtc": rtc, "allow_event_without_transition": allow, "listeners": listeners}
     tag = f"{params['engine']}:rtc={rtc}"
@@ -117,6 +122,7 @@ def run_history(ctx, params, script_kw, prop, class_name):
     for k in range(params["calls"]):
         ev = events[ctx.choose(len(events), f"call{k}")]
         del script.log[:]
+        script._first_trigger = None
         if "call_budgets" in params:
             script.budget = params["call_budgets"][k]
             script.taken = []
@@ -140,6 +146,8 @@ def run_history(ctx, params, script_kw, prop, class_name):
                 ctx.cover("nested-send-failed")
         if len(acc.fired) > 1:
             ctx.cover("queued-event-ran")
+            if script.values == "first_none" and out[0] == "ret":
+                ctx.cover("first-result-none")
         cur = new
     if script.unawaited:
         ctx.cover("unawaited-nested-send")
